@@ -239,6 +239,23 @@ func TestVerifC16(t *testing.T) {
 				trail = append(trail, fmt.Sprintf("resize %dx%d", w, h))
 				x.s.SetWidthHeight(w, h)
 			}
+			if r.Intn(8) == 0 {
+				// a status line around the terminal width, with line feeds and other control bytes typed into it
+				w := x.snap().width
+				fill := []byte{':'}
+				for i, k := 0, w-4+r.Intn(7); i < k; i++ {
+					switch r.Intn(9) {
+					case 0:
+						fill = append(fill, '\n')
+					case 1:
+						fill = append(fill, []byte{'\t', '\r', 0x0b, 0x85, 0xe9}[r.Intn(5)])
+					default:
+						fill = append(fill, byte('a'+r.Intn(26)))
+					}
+				}
+				fill = append(fill, 0x1b)
+				tk = token{fill, fmt.Sprintf("status line of about %d characters with control bytes", w)}
+			}
 			trail = append(trail, tk.desc)
 			stop := false
 			for _, b := range tk.keys {
